@@ -171,6 +171,23 @@ def typeEtimeTruthful (inTx : Bool) (op : Op) (now : Int) (pre post : DB) (res :
       let proj (s : State) := s.map (fun e => (e.1, e.2.val.ty, e.2.etime))
       some (decide (proj (abs now post) = proj (purge now r.st)))
 
+/-- a set store with an empty source list: succeeds without touching anything (nothing to do) -/
+def emptySources : Op → Bool
+  | .setDiffStore _ [] | .setInterStore _ [] | .setUnionStore _ [] => true
+  | _ => false
+
+/-- C19, last clause: "a key that is … fully replaced by a storing operation and created again
+starts a new history". After a successful store the destination row is what a key created for the
+first time by this call would be: version 1, modification time of the call — whatever the
+destination was before. `none`: not a store, a failed one, an empty source list, or the D05
+situation (the name is held by an expired-but-stored row, which the store reuses). -/
+def storeHistory (op : Op) (now : Int) (pre post : DB) (res : Out) : Option Bool :=
+  match storeDest op with
+  | none => none
+  | some d =>
+    if isErr res || emptySources op || staleKey pre now d then none
+    else some (post.keys.all (fun r' => r'.key != d || (r'.version == 1 && r'.mtime == now)))
+
 /-- which parts of the final tables differ between two runs (model vs implementation) -/
 def diffParts (a b : DB) : List String :=
   let ka := a.keys
